@@ -32,13 +32,22 @@ func verifRow(cols int, symbolic bool) []byte {
 }
 
 // Verif_C06_ccitt_roundtrip: CCITTFax (Group 4, Group 3 1-D, Group 3 2-D)
-// round trips for one or two rows; widths around the byte and make-up code
+// round trips for one or two (thorough: three) rows, plain, with end-of-line
+// codes and with byte-aligned rows; widths around the byte and make-up code
 // boundaries; the first row of narrow images is symbolic.
 func Verif_C06_ccitt_roundtrip() {
 	verifrt.Unwind(40000)
 	cols := []int{1, 8, 9, 63, 64, 65, 128, 1728}[verifrt.Choice("columns", 6+2*verifrt.Tier())]
 	p := &Params{Columns: cols, K: []int{-1, 0, 2}[verifrt.Choice("k", 3)], BlackIs1: verifrt.Choice("blackis1", 2) == 1}
-	rows := 1 + verifrt.Choice("rows", 2)
+	// the options that change the layout of the encoded data: end-of-line
+	// codes and rows padded to byte boundaries
+	switch verifrt.Choice("layout", 3) {
+	case 1:
+		p.EndOfLine = true
+	case 2:
+		p.EncodedByteAlign = true
+	}
+	rows := 1 + verifrt.Choice("rows", 2+verifrt.Tier())
 	var data []byte
 	for i := 0; i < rows; i++ {
 		data = append(data, verifRow(cols, i == 0 && cols <= 9)...)
